@@ -158,6 +158,9 @@ struct Store {
 
     /// True when the store was done with `SeqCst` ordering
     seq_cst: bool,
+
+    /// True when the store is the write half of a read-modify-write
+    rmw: bool,
 }
 
 #[derive(Debug)]
@@ -290,6 +293,7 @@ impl<T: Numeric> Atomic<T> {
                 Synchronize::new(),
                 val.into_u64(),
                 ordering,
+                false,
             );
         })
     }
@@ -427,7 +431,7 @@ impl State {
         // creation of this atomic cell.
         //
         // This is verified using `cell`.
-        state.store(threads, Synchronize::new(), value, Ordering::Release);
+        state.store(threads, Synchronize::new(), value, Ordering::Release, false);
 
         state
     }
@@ -459,6 +463,7 @@ impl State {
         mut sync: Synchronize,
         value: u64,
         ordering: Ordering,
+        rmw: bool,
     ) {
         let index = index(self.cnt);
 
@@ -480,6 +485,15 @@ impl State {
                 let mo = self.stores[i].modification_order;
                 modification_order.join(&mo);
             }
+
+            // RMW atomicity: a read-modify-write reads the newest store, so
+            // nothing stored later may be ordered between the store it read
+            // from and its own write. Order this store after every earlier
+            // read-modify-write.
+            if self.stores[i].rmw {
+                let mo = self.stores[i].modification_order;
+                modification_order.join(&mo);
+            }
         }
 
         sync.sync_store(threads, ordering);
@@ -495,6 +509,7 @@ impl State {
             sync,
             first_seen,
             seq_cst: is_seq_cst(ordering),
+            rmw,
         };
     }
 
@@ -533,7 +548,17 @@ impl State {
                 // the load. This is our (hacky) way to establish a release
                 // sequence.
                 let sync = self.stores[index].sync;
-                self.store(threads, sync, next, success);
+
+                // RMW atomicity: the store read from is the newest one, every
+                // other store is ordered before it.
+                for i in 0..self.stores.len() {
+                    if i != index {
+                        let mo = self.stores[i].modification_order;
+                        self.stores[index].modification_order.join(&mo);
+                    }
+                }
+
+                self.store(threads, sync, next, success, true);
 
                 Ok(prev)
             }
@@ -859,6 +884,7 @@ impl Default for Store {
             sync: Synchronize::new(),
             first_seen: FirstSeen::new(),
             seq_cst: false,
+            rmw: false,
         }
     }
 }
